@@ -9,8 +9,8 @@ GEN="$D/overlay/gen"
 GOROOT126="$($GO126 env GOROOT)" || exit 2
 mkdir -p "$GEN" "$D/bin"
 stamp="$GEN/.stamp"
-if [ ! -f "$stamp" ] || [ "$D/overlay/rand.diff" -nt "$stamp" ] || [ "$D/overlay/proc.diff" -nt "$stamp" ] || [ "$D/overlay/select.diff" -nt "$stamp" ] || [ "$D/overlay/alg.diff" -nt "$stamp" ] || [ "$D/overlay/time.diff" -nt "$stamp" ] || [ "$D/overlay/synctest.add" -nt "$stamp" ]; then
-  for f in rand alg select proc time; do
+if [ ! -f "$stamp" ] || [ "$D/overlay/rand.diff" -nt "$stamp" ] || [ "$D/overlay/proc.diff" -nt "$stamp" ] || [ "$D/overlay/select.diff" -nt "$stamp" ] || [ "$D/overlay/alg.diff" -nt "$stamp" ] || [ "$D/overlay/time.diff" -nt "$stamp" ] || [ "$D/overlay/sema.diff" -nt "$stamp" ] || [ "$D/overlay/synctest.add" -nt "$stamp" ]; then
+  for f in rand alg select proc time sema; do
     cp "$GOROOT126/src/runtime/$f.go" "$GEN/$f.go" || exit 2
     patch -s "$GEN/$f.go" < "$D/overlay/$f.diff" || { echo "overlay patch failed: $f" >&2; exit 2; }
   done
@@ -22,6 +22,7 @@ if [ ! -f "$stamp" ] || [ "$D/overlay/rand.diff" -nt "$stamp" ] || [ "$D/overlay
 "$GOROOT126/src/runtime/select.go":"$GEN/select.go",
 "$GOROOT126/src/runtime/proc.go":"$GEN/proc.go",
 "$GOROOT126/src/runtime/time.go":"$GEN/time.go",
+"$GOROOT126/src/runtime/sema.go":"$GEN/sema.go",
 "$GOROOT126/src/testing/synctest/synctest.go":"$GEN/synctest.go"
 }}
 J
